@@ -108,14 +108,29 @@ def run(ck: Check, prog: Program) -> None:
                     problems.append(('RECORD-BEFORE-REPLY', f'matched reply after {st} recordings', n.line,
                                      f'a matched call must be recorded exactly once before the reply is built; this return is reached '
                                      f'with {st} recordings; path: {cfg.describe_path(path)}'))
+    # the callback is user code and may raise: the call must already be recorded when it is invoked
+    for n in cfg.stmt_nodes():
+        if any(isinstance(c.func, ast.Attribute) and c.func.attr == 'callback' for c in calls_in(n)) and n.id not in rec_nodes:
+            for st in states.get(n.id, ()):
+                if st != 1:
+                    problems.append(('RECORD-BEFORE-REPLY', f'callback invoked after {st} recordings', n.line,
+                                     f'`{norm(n.ast)[:80]}` runs the configured callback when the call has been recorded {st} times: a callback '
+                                     f'that raises would leave the call unrecorded (every call is recorded, exactly once, before its reply is computed)'))
+    # the recording stub and the callback receive the request's params spread by kind: *params for an array, **params for an
+    # object, the value itself otherwise — decided on the values that can reach the call (flow.py), so a shared
+    # `args, kwargs = ...` preparation is read the same way as three separate calls
+    from ..flow import Flow
+    fl_ = Flow(cfg)
     for n in cfg.stmt_nodes():
         for c in calls_in(n):
-            if isinstance(c.func, ast.Name) and c.func.id in stub_vars:
-                args_ok = (len(c.args) == 1 and isinstance(c.args[0], ast.Starred) and dotted(c.args[0].value) == pparam) or \
-                          (len(c.keywords) == 1 and c.keywords[0].arg is None and dotted(c.keywords[0].value) == pparam) or \
-                          (len(c.args) == 1 and dotted(c.args[0]) == pparam)
-                if not args_ok:
-                    problems.append(('RECORD-BEFORE-REPLY', 'recording does not carry the request params', n.line, f'`{norm(c)}`'))
+            is_stub = isinstance(c.func, ast.Name) and c.func.id in stub_vars
+            is_cb = isinstance(c.func, ast.Attribute) and c.func.attr == 'callback'
+            if not (is_stub or is_cb):
+                continue
+            bad = _spread_problem(prog, mr, cfg, fl_, n, c, pparam)
+            if bad:
+                problems.append(('RECORD-BEFORE-REPLY', ('recording' if is_stub else 'callback invocation') + ' does not carry the request params',
+                                 n.line, f'`{norm(c)}`: {bad}'))
     # recording key = (endpoint)[(version, method)]
     # ---- FALLBACKS ---------------------------------------------------------------------------------
     idp = mr.params[5].arg if len(mr.params) > 5 else 'id'
@@ -363,6 +378,81 @@ def run(ck: Check, prog: Program) -> None:
         ck.finding('ROTATE', ci.qualname + '.replace', 'replace does not overwrite index idx', ci.module.rel, rep.node.lineno if rep else 0, '')
 
 
+def _spread_problem(prog: Program, f: FuncInfo, cfg: CFG, fl, n: Node, c: ast.Call, pparam: str) -> Optional[str]:
+    """None iff on every path the call receives exactly the request params: `*P` when P is an array, `**P` when P is an object,
+    `P` itself otherwise."""
+    def kind_of_guards(guards) -> Optional[str]:
+        pos = named = None
+        for cond, pol in guards:
+            ckd = classify_cond(prog, f, cond)
+            if ckd.kind == 'isinstance' and ckd.subject == pparam:
+                names = set(ckd.detail.split(','))
+                holds = pol != ckd.negated
+                if names and names <= {'list', 'tuple'}:
+                    pos = holds if pos is None else pos
+                elif names == {'dict'}:
+                    named = holds if named is None else named
+        if pos:
+            return 'array'
+        if named:
+            return 'object'
+        if pos is False and named is False:
+            return 'other'
+        return None
+    base = [(g.src.ast, g.label == 'T') for g in guard_edges(cfg, n)]
+    stars = [a for a in c.args if isinstance(a, ast.Starred)]
+    plain = [a for a in c.args if not isinstance(a, ast.Starred)]
+    dstar = [k for k in c.keywords if k.arg is None]
+    named_kw = [k for k in c.keywords if k.arg is not None]
+    if named_kw or len(stars) > 1 or len(dstar) > 1:
+        return 'unexpected argument structure'
+
+    def a_form(e: ast.expr) -> Optional[str]:
+        if dotted(e) == pparam:
+            return '*P'
+        if isinstance(e, (ast.Tuple, ast.List)) and not e.elts:
+            return '()'
+        if isinstance(e, (ast.Tuple, ast.List)) and len(e.elts) == 1 and dotted(e.elts[0]) == pparam:
+            return '(P,)'
+        return None
+
+    def k_form(e: ast.expr) -> Optional[str]:
+        if dotted(e) == pparam:
+            return '**P'
+        if isinstance(e, ast.Dict) and not e.keys:
+            return '{}'
+        return None
+    a_alts = [(a_form(al.expr), al.guards, norm(al.expr)) for al in fl.alts(n, stars[0].value)] if stars else [('()', base, '()')]
+    if plain:
+        if stars or len(plain) != 1 or dotted(plain[0]) != pparam:
+            return 'unexpected positional arguments'
+        a_alts = [('(P,)', base, pparam)]
+    k_alts = [(k_form(al.expr), al.guards, norm(al.expr)) for al in fl.alts(n, dstar[0].value)] if dstar else [('{}', base, '{}')]
+    want = {'array': ('*P', '{}'), 'object': ('()', '**P'), 'other': ('(P,)', '{}')}
+    seen_any = False
+    for af, ag, atxt in a_alts:
+        for kf, kg, ktxt in k_alts:
+            gs = list(ag) + list(kg)
+            pol: Dict[str, bool] = {}
+            contradictory = False
+            for cond, p_ in gs:
+                if pol.setdefault(norm(cond), p_) != p_:
+                    contradictory = True        # the two alternatives come from different branches
+            if contradictory:
+                continue
+            seen_any = True
+            if af is None or kf is None:
+                return f'arguments `*{atxt}, **{ktxt}` are not the request params'
+            kind = kind_of_guards(gs)
+            if kind is None:
+                return f'`*{atxt}, **{ktxt}` is passed without a test of the params kind (array / object / other)'
+            if want[kind] != (af, kf):
+                return f'for {kind} params the call receives `*{atxt}, **{ktxt}`'
+    if not seen_any:
+        return 'no consistent argument alternative'
+    return None
+
+
 def _rotation_vars(mr: FuncInfo) -> Tuple[str, str]:
     """(variable holding the selected patch, variable holding the patch list)."""
     sel = None
@@ -533,6 +623,22 @@ MUTANTS = [
             stub(params)
 
         if match.callback:''', expect='RECORD-BEFORE-REPLY'),
+    dict(name='callback-named-params-as-one-positional', file='pjrpc/client/integrations/pytest.py',
+         find='result = match.callback(**params)', replace='result = match.callback(params)', expect='RECORD-BEFORE-REPLY'),
+    dict(name='recording-splats-without-kind-test', file='pjrpc/client/integrations/pytest.py',
+         find="""        if isinstance(params, (list, tuple)):
+            stub(*params)
+        elif isinstance(params, dict):
+            stub(**params)
+        else:
+            stub(params)
+""", replace="""        if isinstance(params, (list, tuple, str)):
+            stub(*params)
+        elif isinstance(params, dict):
+            stub(**params)
+        else:
+            stub(params)
+""", expect='RECORD-BEFORE-REPLY'),
     dict(name='drop-cleanup', file='pjrpc/client/integrations/pytest.py', nth=1,
          find='        self._cleanup_matches(endpoint, version, method_name)\n', replace='', expect='ROTATE'),
     dict(name='once-inverted', file='pjrpc/client/integrations/pytest.py', find='        if not match.once:\n            matches.append(match)',
